@@ -8,7 +8,7 @@ C19 — the rest of the front door (core Lean only):
 import OG.C19.Flow
 
 namespace OG.C19
-open OG.Gen.C19 (RouteFact routes plainAuthDefaultFallsThrough authCacheChecksBase)
+open OG.Gen.C19 (RouteFact routes plainAuthDefaultFallsThrough authCacheChecksBase PlainEndpoint metaEndpoints)
 
 /-! ## lib/httpserver.Authenticate -/
 
@@ -35,6 +35,26 @@ def authenticatePlain (w : World) (r : Req) : PlainOutcome :=
           | some _ => .inner
           | none => .deny 401
       | _ => if plainAuthDefaultFallsThrough then .denyThenInner 401 else .deny 401
+
+/-- what the ts-meta HTTP handler does with a request: its `ServeHTTP` switches on method and
+path (`metaEndpoints`, regenerated); an arm answers through `WrapHandler` = `authenticatePlain`. -/
+inductive MetaDecision where
+  | d401               -- refused by the wrapper, handler not run
+  | reached            -- the endpoint's handler ran
+  | reachedAfterDeny   -- refused *and* the handler ran
+  | noRoute            -- no arm for this method / path: nothing runs
+deriving DecidableEq, Repr
+
+def decideMeta (w : World) (method path : String) (req : Req) : MetaDecision :=
+  match metaEndpoints.find? (fun e => e.method = method && e.path = path) with
+  | some e =>
+    if e.wrapped then
+      match authenticatePlain w req with
+      | .deny _ => .d401
+      | .inner => .reached
+      | .denyThenInner _ => .reachedAfterDeny
+    else .reached
+  | none => .noRoute
 
 /-! ## the password cache of metaclient.Client.Authenticate -/
 
